@@ -10,7 +10,10 @@ package certmagic
 // cleaning one line is written: options, `now`, the store as it was when the cleaner got
 // the storage_clean lock (every key with an independent reading of its content) and what
 // the cleaner did (keys gone, keys altered/created, reading of last_clean.json afterwards,
-// the mutating storage calls in order). The Lean driver answers with the model's
+// the mutating storage calls in order). One cleaner in three runs on a storage with transient
+// errors (each List / Load / Stat / Delete / Store call of the chosen kinds fails with a
+// chosen probability, before reaching the back end); such a cleaning goes out as `cleanf`
+// with the list of failed calls. The Lean driver answers with the model's
 // prediction and with the verdict of the executable specification on the observed
 // difference. A Go-side monitor checks on the operation logs that every storage call of a
 // cleaner lies between its Lock and Unlock and that critical sections never overlap.
@@ -66,6 +69,25 @@ type c18Wrap struct {
 	nowAtUnl  time.Time
 	lockSeq   int64
 	unlockSeq int64
+	// transient storage errors (a back end hiccup): every call of one of the kinds in fkinds
+	// fails with probability 1/fp, WITHOUT reaching the storage underneath
+	frng   *mrand.Rand
+	fp     int
+	fkinds string
+	calls  int
+	faults []string
+}
+
+var errC18Transient = fmt.Errorf("c18: injected transient storage error")
+
+// fault decides whether this call (already logged by rec) fails
+func (w *c18Wrap) fault(kind, key string) error {
+	w.calls++
+	if w.fp == 0 || !strings.Contains(w.fkinds, kind) || w.frng.Intn(w.fp) != 0 {
+		return nil
+	}
+	w.faults = append(w.faults, fmt.Sprintf("%s%d@%s", kind, w.calls, hexRunes(key)))
+	return errC18Transient
 }
 
 func (w *c18Wrap) rec(kind, key string) int64 {
@@ -105,26 +127,41 @@ func (w *c18Wrap) Unlock(ctx context.Context, name string) error {
 
 func (w *c18Wrap) Store(ctx context.Context, key string, value []byte) error {
 	w.rec("S", key)
+	if err := w.fault("S", key); err != nil {
+		return err
+	}
 	return w.Storage.Store(ctx, key, value)
 }
 
 func (w *c18Wrap) Delete(ctx context.Context, key string) error {
 	w.rec("D", key)
+	if err := w.fault("D", key); err != nil {
+		return err
+	}
 	return w.Storage.Delete(ctx, key)
 }
 
 func (w *c18Wrap) Load(ctx context.Context, key string) ([]byte, error) {
 	w.rec("l", key)
+	if err := w.fault("l", key); err != nil {
+		return nil, err
+	}
 	return w.Storage.Load(ctx, key)
 }
 
 func (w *c18Wrap) List(ctx context.Context, prefix string, recursive bool) ([]string, error) {
 	w.rec("i", prefix)
+	if err := w.fault("i", prefix); err != nil {
+		return nil, err
+	}
 	return w.Storage.List(ctx, prefix, recursive)
 }
 
 func (w *c18Wrap) Stat(ctx context.Context, key string) (KeyInfo, error) {
 	w.rec("t", key)
+	if err := w.fault("t", key); err != nil {
+		return KeyInfo{}, err
+	}
 	return w.Storage.Stat(ctx, key)
 }
 
@@ -621,6 +658,12 @@ func TestVerifC18(t *testing.T) {
 					ws := make([]*c18Wrap, len(ops))
 					for i := range ops {
 						ws[i] = &c18Wrap{Storage: under, seq: seq, snap: snap}
+						if rng.Intn(3) == 0 {
+							// this cleaner's storage has hiccups: which calls, and how often
+							ws[i].frng = mrand.New(mrand.NewSource(rng.Int63()))
+							ws[i].fp = []int{2, 4, 8, 16, 32}[rng.Intn(5)]
+							ws[i].fkinds = []string{"ilstDS", "ilstDS", "ilt", "i", "i", "l", "t", "D", "S", "DS", "it"}[rng.Intn(11)]
+						}
 					}
 					errs := make([]error, len(ops))
 					for i := range ops {
@@ -757,8 +800,17 @@ func c18Emit(t *testing.T, o *vOut, w *c18Wrap, op c18Opts, err error, useFile b
 		}
 		return 0
 	}
-	o.Line("clean %d %d %d %d %s %d %s => %s %s %s %s %s", int64(op.iv), b(op.ocsp), b(op.certs), int64(op.grace), hexRunes(op.inst),
-		w.nowAtLock.UnixNano(), c18Join(ents), res, c18Join(deleted), c18Join(changed), last, c18Join(log))
+	if len(w.faults) > 0 {
+		// some storage calls of this cleaner failed: the model (which knows no I/O errors) makes no
+		// prediction; the specification still judges what was deleted, altered and recorded
+		o.Line("cleanf %d %d %d %d %s %d %s %s => %s %s %s %s %s", int64(op.iv), b(op.ocsp), b(op.certs), int64(op.grace), hexRunes(op.inst),
+			w.nowAtLock.UnixNano(), c18Join(ents), strings.Join(w.faults, ","), res, c18Join(deleted), c18Join(changed), last, c18Join(log))
+		o.Stat("cleanings_with_storage_faults", 1)
+		o.Stat("storage_faults_injected", len(w.faults))
+	} else {
+		o.Line("clean %d %d %d %d %s %d %s => %s %s %s %s %s", int64(op.iv), b(op.ocsp), b(op.certs), int64(op.grace), hexRunes(op.inst),
+			w.nowAtLock.UnixNano(), c18Join(ents), res, c18Join(deleted), c18Join(changed), last, c18Join(log))
+	}
 	o.Stat("cleanings", 1)
 	o.Stat("keys_classified", len(keys))
 	o.Stat("keys_deleted", len(deleted))
